@@ -2,23 +2,44 @@
 import os
 from vf.core import *
 from props import sessb
-US = ['x_memcmp.0:4', 'vf_copy.0:7', 'x_strlen.0:16', 'x__ZN4Poco3Net12StreamSocket9sendBytesEPKvii.0:14']
+US = ['main.0:8', 'is_hdr.0:10', 'hidx.0:10', 'midx.0:10', 'x_memcmp.0:8', 'vf_copy.0:15', 'x_strlen.0:16', 'x__ZN4Poco3Net12StreamSocket9sendBytesEPKvii.0:14']
+B_STATE = 'pre-state (_next_send_seq, _next_receive_seq) = (n, r) arbitrary in 1..2^32-16; always_seqnum_assign symbolic; encodings 2..4 symbolic non-NUL bytes'
 
 def run(ctx):
     kf = known_findings('C16'); defs = kf_defines(kf)
     sessb.build(ctx)
-    def H(name, defines, **kw):
-        ctx.add(Harness(name, VERIF + '/harness/C16_send.c', defines=defs + defines + ['VF_MAXCOPY=5'], unwind=5, unwindset=US, timeout=kw.pop('timeout', 600), mem_gb=12,
-                        functions=sessb.FUN_SEND, stubs=sessb.STUBS_SEND, nochecks=False, **kw))
-    H('C16_send_single', ['OPS=3', 'J=1', 'NMSG=1'], desc='one send (pointer or reference overload) of an arbitrary message from an arbitrary (n, r)',
-      bounds='n, r in 1..2^32-16; message kind in {app, heartbeat, sequence reset, logout}; new or carrying an original number (with/without PossDupFlag); custom_seqnum, no_increment, destroy, always_seqnum_assign, persister present/absent symbolic')
-    H('C16_send_batch', ['OPS=4', 'J=3', 'NMSG=3', 'NEW_ONLY'], desc='send_batch of 0..3 new messages from an arbitrary (n, r)',
-      bounds='batch size 0..3; message kinds symbolic; n, r in 1..2^32-16; destroy, always_seqnum_assign, persister symbolic')
-    ctx.assumptions += ['operator new never fails', 'the socket accepts every byte written', 'single caller (no concurrent sender; see C25)']
+    T = ctx.tier == 'thorough'
+    def H(name, cfile, defines, desc, bounds, tier='quick', fun=None, **kw):
+        ctx.add(Harness(name, VERIF + '/harness/' + cfile, defines=defs + defines + ['VF_MAXCOPY=13'], unwind=5, unwindset=US, timeout=900 if not T else 2400, mem_gb=12,
+                        functions=fun or sessb.FUN_SEND, stubs=sessb.STUBS_SEND, nochecks=False, desc=desc, bounds=bounds + '; ' + B_STATE, tier=tier, **kw))
+    one = 'one message of kind {app, heartbeat, sequence reset, logout}, new or carrying an original number (with/without PossDupFlag); custom_seqnum, no_increment, destroy symbolic'
+    H('C16_send_ptr', 'C16_send.c', ['OP=0', 'J=1', 'NMSG=1'], 'Session::send(Message*, destroy, custom_seqnum, no_increment), inductive step', one)
+    H('C16_send_ref', 'C16_send.c', ['OP=1', 'J=1', 'NMSG=1'], 'Session::send(Message&, custom_seqnum, no_increment), inductive step', one)
+    for j in (2, 3):
+        H('C16_batch_j%d' % j, 'C16_send.c', ['OP=2', 'J=3', 'NMSG=3', 'JFIX=%d' % j, 'NEW_ONLY'], 'Session::send_batch of %d new messages, inductive step' % j,
+          'batch of %d new messages, kinds symbolic, destroy symbolic' % j)
+    H('C16_first_send', 'C16_send.c', ['OP=0', 'J=1', 'NMSG=1', 'STALE_CTRL', 'NEW_ONLY'], 'first send of a new message over an arbitrary (stale or absent) control record', 'one new message; control record arbitrary')
+    H('C16_recover', 'C16_recover.c', [], 'recover_seqnums / update_persist_seqnums: recovered record becomes the session numbers and the first message carries the recovered number',
+      'control record (a, b) arbitrary or absent; one new message afterwards', fun=sessb.FUN_SEND)
+    # thorough: remaining batch sizes, batches containing retransmissions, no persister
+    for j in (0, 1):
+        H('C16_batch_j%d' % j, 'C16_send.c', ['OP=2', 'J=3', 'NMSG=3', 'JFIX=%d' % j, 'NEW_ONLY'], 'send_batch of %d messages' % j, 'batch of %d' % j, tier='thorough')
+    for j in (2, 3):
+        H('C16_batch_mixed_j%d' % j, 'C16_send.c', ['OP=2', 'J=3', 'NMSG=3', 'JFIX=%d' % j], 'send_batch of %d messages, each new or a retransmission' % j, 'batch of %d, new/retransmitted symbolic per message' % j, tier='thorough')
+    H('C16_send_ptr_nopersist', 'C16_send.c', ['OP=0', 'J=1', 'NMSG=1', 'NOPERSIST'], 'send without a persister', one, tier='thorough')
+    H('C16_batch_nopersist_j3', 'C16_send.c', ['OP=2', 'J=3', 'NMSG=3', 'JFIX=3', 'NOPERSIST'], 'send_batch without a persister', 'batch of 3', tier='thorough')
+    ctx.assumptions += ['operator new never fails', 'the socket accepts every byte written (no EAGAIN / reset)', 'single caller (concurrent senders: C25)',
+                        'process model pm_thread (pipelined writer thread: C25/C30)',
+                        'consecutive-numbering clause applies to sends without explicit custom_seqnum/no_increment override (caller-chosen numbers); the control-record clause applies to every send',
+                        'the "after each processed inbound message" clause is checked at Session::update_persist_seqnums (called at the end of the normal path of Session::process); '
+                        'the reject path of process() (increments the receive number without writing the record) is reported in tools/reports/C16.md']
     ctx.solve(jobs=4)
     ctx.handle_failures(replay, kf)
     announce_known(ctx, kf, replay)
     return ctx.finish()
 
 def replay(ctx, cx, h=None):
-    return False, 'replay driver not written yet'
+    c = cx.get('cx', cx)
+    if 'cx_rec_valid' in c:      # C16_recover scenario: recovered record, then one new message
+        return False, 'recover scenario has no native driver (no counterexample expected)'
+    return sessb.replay_send(ctx, cx, 1)
